@@ -56,6 +56,8 @@ struct State {
     aborted: bool,
     diverged: Option<String>,
     horizon: usize,
+    /// number of times a waiting thread took the baton from a thread that stopped reporting (see wait_for_turn_opt)
+    stolen: u32,
 }
 
 pub struct Sched {
@@ -64,6 +66,9 @@ pub struct Sched {
     /// who holds the baton (usize::MAX: nobody) -- read without the lock by waiting threads
     current: std::sync::atomic::AtomicUsize,
     aborted: std::sync::atomic::AtomicBool,
+    /// bumped at every scheduling decision (liveness signal for the watchdog)
+    epoch: std::sync::atomic::AtomicU64,
+    steal_after_ticks: std::sync::atomic::AtomicU32,
     handles: Mutex<Vec<Option<std::thread::Thread>>>,
 }
 
@@ -84,11 +89,14 @@ impl Sched {
                 deadlock: false,
                 aborted: false,
                 diverged: None,
-                horizon: 20_000,
+                horizon: 200_000,
+                stolen: 0,
             }),
             cv: Condvar::new(),
             current: std::sync::atomic::AtomicUsize::new(usize::MAX),
             aborted: std::sync::atomic::AtomicBool::new(false),
+            epoch: std::sync::atomic::AtomicU64::new(0),
+            steal_after_ticks: std::sync::atomic::AtomicU32::new(300),
             handles: Mutex::new(vec![None; n]),
         })
     }
@@ -97,6 +105,7 @@ impl Sched {
     fn publish(&self, st: &State) {
         use std::sync::atomic::Ordering::SeqCst;
         self.aborted.store(st.aborted, SeqCst);
+        self.epoch.fetch_add(1, SeqCst);
         self.current.store(st.current.unwrap_or(usize::MAX), SeqCst);
         let hs = self.handles.lock().unwrap();
         if st.aborted {
@@ -146,7 +155,10 @@ impl Sched {
             }
         }
         if enabled.is_empty() {
-            if st.threads.iter().any(|t| *t != ThreadState::Finished) {
+            // deadlock = every unfinished thread is parked and disabled. A thread that is Running (it lost the baton to
+            // the watchdog while blocked and now runs on its own) will report again: no deadlock.
+            let someone_running = st.threads.iter().enumerate().any(|(t, s)| *s == ThreadState::Running && Some(t) != me);
+            if !someone_running && st.threads.iter().any(|t| *t != ThreadState::Finished) {
                 st.deadlock = true;
                 st.aborted = true;
             }
@@ -184,15 +196,47 @@ impl Sched {
     }
 
     fn wait_for_turn(&self, me: usize) {
+        self.wait_for_turn_opt(me, true)
+    }
+
+    /// `may_panic = false` (allocation points: the allocator must not unwind): an aborted schedule lets the thread run on
+    /// uncontrolled. Watchdog: if the thread holding the baton reports nothing for a long time it is presumably blocked
+    /// inside a primitive the scheduler does not model (e.g. a std Mutex held by a parked thread); the waiting thread
+    /// then takes the baton ("steal") so that the execution terminates; the execution is marked uncontrolled.
+    fn wait_for_turn_opt(&self, me: usize, may_panic: bool) {
         use std::sync::atomic::Ordering::SeqCst;
+        let mut waited = 0u32;
+        let mut last_epoch = self.epoch.load(SeqCst);
         loop {
             if self.aborted.load(SeqCst) {
-                panic!("schedule aborted");
+                if may_panic {
+                    panic!("schedule aborted");
+                }
+                return;
             }
             if self.current.load(SeqCst) == me {
                 return;
             }
-            std::thread::park_timeout(std::time::Duration::from_millis(20));
+            std::thread::park_timeout(std::time::Duration::from_millis(10));
+            let e = self.epoch.load(SeqCst);
+            if e != last_epoch {
+                last_epoch = e;
+                waited = 0;
+            } else {
+                waited += 1;
+                if waited >= self.steal_after_ticks.load(SeqCst) && self.current.load(SeqCst) != usize::MAX {
+                    let mut st = self.state.lock().unwrap();
+                    if self.epoch.load(SeqCst) == last_epoch && st.current != Some(me) && !st.aborted {
+                        st.stolen += 1;
+                        st.threads[me] = ThreadState::Running;
+                        st.current = Some(me);
+                        self.epoch.fetch_add(1, SeqCst);
+                        self.current.store(me, SeqCst);
+                        return;
+                    }
+                    waited = 0;
+                }
+            }
         }
     }
 
@@ -201,20 +245,37 @@ impl Sched {
     }
 
     fn park(&self, me: usize, want_cell: Option<u8>, label: &str) {
+        self.park_opt(me, want_cell, label, true)
+    }
+
+    fn park_opt(&self, me: usize, want_cell: Option<u8>, label: &str, may_panic: bool) {
+        // the scheduler's own allocations are not scheduling points
+        crate::allocmon::without_sched_points(|| self.park_inner(me, want_cell, label, may_panic))
+    }
+
+    fn park_inner(&self, me: usize, want_cell: Option<u8>, label: &str, may_panic: bool) {
         {
             let mut st = self.state.lock().unwrap();
             if st.aborted {
                 drop(st);
-                panic!("schedule aborted");
+                if may_panic {
+                    panic!("schedule aborted");
+                }
+                return;
+            }
+            if st.stolen > 0 && st.current != Some(me) {
+                // this thread lost the baton to the watchdog while it was blocked: it now runs uncontrolled
+                return;
             }
             st.threads[me] = ThreadState::Parked(want_cell);
             Self::decide(&mut st, Some(me), label);
             self.publish(&st);
         }
-        self.wait_for_turn(me);
+        self.wait_for_turn_opt(me, may_panic);
     }
 
     fn finish(&self, me: usize) {
+        crate::allocmon::set_sched_points(false);
         let mut st = self.state.lock().unwrap();
         st.threads[me] = ThreadState::Finished;
         if !st.aborted {
@@ -227,6 +288,13 @@ impl Sched {
 
 /// A scheduling point reached from one of the seams (no-op on threads that are not managed)
 static FINE: std::sync::atomic::AtomicBool = std::sync::atomic::AtomicBool::new(false);
+static ALLOC_POINTS: std::sync::atomic::AtomicBool = std::sync::atomic::AtomicBool::new(false);
+
+/// Finest granularity: every heap allocation of a managed thread is a scheduling point as well (used with preemption
+/// bound 1: "preempted anywhere once")
+pub fn set_alloc_points(on: bool) {
+    ALLOC_POINTS.store(on, std::sync::atomic::Ordering::SeqCst);
+}
 
 /// Fine granularity: every transcript operation and every group operation is a scheduling point. Coarse: challenge
 /// draws, transcript-RNG finalisation, construction / use of the shared precomputed table, and the once-cell events.
@@ -245,7 +313,19 @@ pub fn point(label: &'static str) {
     }
 }
 
+/// Allocation event of a managed thread (never unwinds: it is called from inside the global allocator)
+fn alloc_point() {
+    let cur = CURRENT.try_with(|c| c.try_borrow().ok().and_then(|b| b.clone())).ok().flatten();
+    if let Some((s, me)) = cur {
+        s.park_opt(me, None, "alloc", false);
+    }
+}
+
 fn hook_sink(ev: HookEvent) {
+    crate::allocmon::without_sched_points(|| hook_sink_inner(ev))
+}
+
+fn hook_sink_inner(ev: HookEvent) {
     let cur = CURRENT.with(|c| c.borrow().clone());
     let (s, me) = match cur {
         Some(x) => x,
@@ -277,6 +357,7 @@ fn hook_sink(ev: HookEvent) {
 
 /// Install the process-wide hooks once (they are no-ops on unmanaged threads)
 pub fn install_hooks() {
+    crate::allocmon::set_alloc_hook(alloc_point);
     crate::fg::set_sched_hook(point);
     merlin::observe::set_sched_hook(point);
     tari_bulletproofs_plus::verif_hooks::set_sink(hook_sink);
@@ -292,6 +373,9 @@ pub struct Execution {
     pub deadlock: bool,
     pub diverged: Option<String>,
     pub init_begins: [u32; 2],
+    /// > 0: at some point a thread stopped reporting (blocked in an unmodelled primitive) and the watchdog let another
+    /// thread run; from then on the execution was not under the scheduler's control
+    pub stolen: u32,
 }
 
 impl Execution {
@@ -306,6 +390,7 @@ impl Execution {
             "deadlock": self.deadlock,
             "diverged": self.diverged,
             "init_begins": self.init_begins,
+            "stolen": self.stolen,
         })
     }
 
@@ -339,6 +424,7 @@ impl Execution {
             deadlock: v["deadlock"].as_bool()?,
             diverged: v["diverged"].as_str().map(|s| s.to_string()),
             init_begins: [v["init_begins"][0].as_u64()? as u32, v["init_begins"][1].as_u64()? as u32],
+            stolen: v["stolen"].as_u64().unwrap_or(0) as u32,
         })
     }
 }
@@ -347,6 +433,11 @@ impl Execution {
 pub type Intern = Arc<Mutex<std::collections::HashMap<[u8; 32], crate::fg::F>>>;
 
 pub fn run_execution(bodies: Vec<Body>, prefix: &[usize], cells_done: bool, intern: Option<Intern>) -> Execution {
+    run_execution_opts(bodies, prefix, cells_done, intern, ALLOC_POINTS.load(std::sync::atomic::Ordering::SeqCst))
+}
+
+/// `alloc_points`: every heap allocation of the managed threads is a scheduling point as well
+pub fn run_execution_opts(bodies: Vec<Body>, prefix: &[usize], cells_done: bool, intern: Option<Intern>, alloc_points: bool) -> Execution {
     let n = bodies.len();
     let sched = Sched::new(n, prefix.to_vec(), cells_done);
     let mut handles = Vec::new();
@@ -361,8 +452,12 @@ pub fn run_execution(bodies: Vec<Body>, prefix: &[usize], cells_done: bool, inte
             s.register(i);
             let r = std::panic::catch_unwind(std::panic::AssertUnwindSafe(|| {
                 s.wait_for_turn(i);
-                body()
+                crate::allocmon::set_sched_points(alloc_points);
+                let out = body();
+                crate::allocmon::set_sched_points(false);
+                out
             }));
+            crate::allocmon::set_sched_points(false);
             CURRENT.with(|c| *c.borrow_mut() = None);
             s.finish(i);
             r.map_err(|e| {
@@ -386,6 +481,7 @@ pub fn run_execution(bodies: Vec<Body>, prefix: &[usize], cells_done: bool, inte
         deadlock: st.deadlock,
         diverged: st.diverged.clone(),
         init_begins: st.init_begins,
+        stolen: st.stolen,
     }
 }
 
@@ -398,6 +494,8 @@ pub struct ExploreStats {
     pub violations: Vec<(String, String)>,
     pub machinery: Vec<String>,
     pub deadlocks: u64,
+    /// executions in which the watchdog had to let another thread run (a thread was blocked in an unmodelled primitive)
+    pub stolen: u64,
 }
 
 /// Preemption-bounded DFS (iterative, parallel work list). `run` executes one schedule prefix; `check` judges it.
@@ -441,6 +539,9 @@ where
                         st.schedules += 1;
                         st.transitions += x.points.len() as u64;
                         st.max_points = st.max_points.max(x.points.len());
+                        if x.stolen > 0 {
+                            st.stolen += 1;
+                        }
                         if let Some(d) = &x.diverged {
                             st.machinery.push(format!("schedule {:?}: {}", prefix, d));
                         } else {
@@ -553,9 +654,9 @@ pub fn explore_first_use(rep: &mut Report, id: &str, bound: usize, thorough: boo
             vec!["gens-2"]
         }
     } else if thorough {
-        vec!["prove-verify", "prove-gens-verify"]
+        vec!["prove-verify", "verify-verify", "prove-gens-verify"]
     } else {
-        vec!["prove-verify"]
+        vec!["prove-verify", "verify-verify"]
     };
     // replay of one recorded schedule: run exactly that schedule twice in fresh processes and show the results
     if let Some(f) = rep.replay_filter.clone() {
